@@ -93,13 +93,13 @@ class FilesPart(Part):
 
         ind = os.path.join(root, "in-" + tag)
         outd = os.path.join(root, "out-" + tag)
-        seams.write_tree(ind, {f: FILES[f] for f in files})
+        seams.write_tree(ind, {f: (FILES[f] if f in FILES else b"\xff\xfe binary \x00\x81 garbage\n") for f in files})
         kw = dict(anon_pwd=False, anon_ip=True, salt=cfg["salt"],
                   preserve_networks=cfg["networks"], preserve_suffix_v4=cfg["B"],
                   preserve_suffix_v6=cfg["B"])
         result = {}
         if mode == "dir":
-            with seams.walk_order(order_key=lambda n: order.index(n) if n in order else -1):
+            with seams.walk_order(order_key=lambda n: order.index(n) if n in order else -1), seams.capture_logs():
                 anonymize_files(ind, outd, **kw)
             tree = seams.read_tree(outd)
             for f in files:
@@ -128,6 +128,18 @@ class FilesPart(Part):
                             n += 1
                             got = self._run_once(root, list(block), list(order), mode, cfg,
                                                  "%d" % n)
+                            if mode == "dir":
+                                # the same run with a file that cannot be processed as its first / second file
+                                for pos in (0, 1):
+                                    n += 1
+                                    o2 = list(order[:pos]) + ["0bad.cfg"] + list(order[pos:])
+                                    g2 = self._run_once(root, list(block) + ["0bad.cfg"], o2, mode, cfg, "%d" % n)
+                                    for f in block:
+                                        if g2.get(f) != got.get(f):
+                                            res.violation(
+                                                "file-output-depends-on-a-failing-neighbour",
+                                                "file %s in run %r: %r, without the unprocessable file %r" % (
+                                                    f, o2, g2.get(f), got.get(f)), cfg)
                             res.evals += 1
                             res.nt((cfg, sorted(block), order, mode))
                             for f, data in got.items():
